@@ -566,6 +566,35 @@ def inclusion(run, R="INC"):
                   "filename_navigate splits `%s` into components without dropping `.` and empty ones: a `..` then pops such a component instead of a directory, so with a root file given as `./main.asm` (or `sub//m.asm`) the path `../x.asm` is accepted and names a file outside the root file's directory" % ", ".join(unfiltered))
         run.check(stack_ok, R, R + "|navigate|all-components-tested", nav.loc(), "every component of the result (from the including file's path as well as from the written path) went through the `..` test",
                   "filename_navigate: %s: `..` components in the including file's own path survive into the result, so a root file given as `../x/main.asm` can name files outside the working directory" % why_s)
+        # no way round the collapse: every path answered `Ok` is either a library path handed back unchanged (behind the
+        # `is_std_path` edge) or leaves through the `..` loop - an early `Ok` for "simple" names skips the confinement test for
+        # the including file's own components
+        dd_heads = []
+        for bi, t in nav.calls():
+            if (t.get("callee") or "") in ("std::cmp::PartialEq::eq", "std::cmp::PartialEq::ne") and any(T.promoted_str(prog, nav, x) == ".." for x in t["args"]):
+                best = None
+                for h_ in sorted(nav.reachable()):
+                    l_ = natural_loop(nav, h_)
+                    if bi in l_ and (best is None or len(l_) < len(best[1])):
+                        best = (h_, l_)
+                if best:
+                    dd_heads.append(best[0])
+        std_edge = None
+        for bi, t in calls_to(nav, "file_navigation::is_std_path"):
+            sw_ = T.bool_test(nav, t)
+            if sw_ is not None:
+                std_edge = (sw_[2], sw_[0])
+        oks, stray = 0, []
+        for bi, si, st in nav.stmts():
+            if st["k"] == "assign" and st["rv"]["k"] == "agg" and st["rv"].get("adt") == "std::result::Result" and st["rv"].get("variant") == "Ok":
+                oks += 1
+                through = any(nav.dominates(h_, bi) and bi not in natural_loop(nav, h_) for h_ in dd_heads)
+                is_std = std_edge is not None and nav.edge_dominates(std_edge[0], std_edge[1], bi)
+                if not (through or is_std):
+                    stray.append(nav.loc(st.get("span")) if st.get("span") else "bb%d" % bi)
+        run.check(oks >= 2 and bool(dd_heads) and not stray, R, R + "|navigate|ok-only-through-collapse", nav.loc(),
+                  "every `Ok` of filename_navigate is the unchanged library path or comes after the `..` collapse loop (%d Ok construction(s))" % oks,
+                  "filename_navigate answers `Ok` on a path that does not run the `..` collapse (%s): the including file's own components are then never tested, so with a root file given as `../outer.asm` a plain `#include \"sibling.asm\"` reads outside the working directory" % (", ".join(stray) or "collapse loop not found"))
         run.check(found, R, R + "|navigate|dotdot-confined", nav.loc(), "`..` with nothing left to pop is reported and rejected", "filename_navigate no longer rejects `..` past the start of the path")
     # real file system only behind `!is_std_path`, and only inside the file server
     allowed = run.table("mpt")["fs_users"]
